@@ -2,13 +2,15 @@
    MatExp p A E (ExpSpec.v): every entry of the exponential series sum_k A^k/k! converges to the entry of E.
    Closed so far (exact, over the reals, for EVERY rotation magnitude above the code's own switch-over —
    near pi, beyond pi, several turns — and every translation):
-     SO2 (all angles; the code has no branch), SE2 and SO3 (generic branch: eps <= theta^2, resp. eps < theta^2),
+     SO2 (all angles; the code has no branch), SE2, SO3, SE3, SE_2(3) and SGal(3) (generic branch: eps <= theta^2, resp.
+     eps < theta^2; the homogeneous 4x4 / 5x5 matrix of exp — rotation through angle-axis, translation and velocity through
+     V(theta) = the SO3 left Jacobian, as the code computes them — solves G' = G hat(t), G(0) = I along the ray),
      Rn (exp is the identity map; hat is nilpotent).
-   Not closed: the Taylor branches (a bound, not an identity), SE3 / SE_2(3) / SGal(3) and bundles — for those
+   Not closed: the Taylor branches (a bound, not an identity) and bundles (block-diagonal by C11) — for those
    the same statement is tested on every run against an independent series in 100-digit arithmetic. *)
 From Coq Require Import Reals List Lra.
 From Coquelicot Require Import Coquelicot.
-From Manif Require Import Scalar Mat Group RInst Generic LieSpec SO2 SE2 SO3 Rn Ode ExpSpec Exp_SE2 Exp_SO3.
+From Manif Require Import Scalar Mat Group RInst Generic LieSpec SO2 SE2 SO3 SE3 SE23 SGal3 Rn Ode ExpSpec Exp_SE2 Exp_SO3 Exp_SE3 Exp_SE23 Exp_SGal3.
 Import ListNotations.
 Local Open Scope R_scope.
 
@@ -26,6 +28,23 @@ Theorem C02_exp_SO3_generic eps x y z : 0 < eps -> eps < x * x + y * y + z * z -
   MatExp 2 (g_hat (SO3 RS eps) [x; y; z]) (g_matrep (SO3 RS eps) (g_exp (SO3 RS eps) [x; y; z])).
 Proof. exact (SO3_exp_matexp eps x y z). Qed.
 Print Assumptions C02_exp_SO3_generic.
+
+Theorem C02_exp_SE3_generic eps a b c x y z : 0 < eps -> eps < x * x + y * y + z * z ->
+  MatExp 3 (g_hat (SE3 RS eps) [a; b; c; x; y; z]) (g_transform (SE3 RS eps) (g_exp (SE3 RS eps) [a; b; c; x; y; z])).
+Proof. exact (SE3_exp_matexp eps a b c x y z). Qed.
+Print Assumptions C02_exp_SE3_generic.
+
+Theorem C02_exp_SE23_generic eps a b c x y z d e f : 0 < eps -> eps < x * x + y * y + z * z ->
+  MatExp 4 (g_hat (SE23 RS eps) [a; b; c; x; y; z; d; e; f]) (g_transform (SE23 RS eps) (g_exp (SE23 RS eps) [a; b; c; x; y; z; d; e; f])).
+Proof. exact (SE23_exp_matexp eps a b c x y z d e f). Qed.
+Print Assumptions C02_exp_SE23_generic.
+
+(* SGal(3): tangent (rho, nu, theta, tau); position = V rho + E (tau nu) with E = fillE (the repaired first-order term of fix c8d4030) *)
+Theorem C02_exp_SGal3_generic eps a b c d e f x y z tau : 0 < eps -> eps < x * x + y * y + z * z ->
+  MatExp 4 (g_hat (SGal3 RS eps) [a; b; c; d; e; f; x; y; z; tau])
+           (g_transform (SGal3 RS eps) (g_exp (SGal3 RS eps) [a; b; c; d; e; f; x; y; z; tau])).
+Proof. exact (SGal3_exp_matexp eps a b c d e f x y z tau). Qed.
+Print Assumptions C02_exp_SGal3_generic.
 
 (* non-vacuity: the hypotheses are met far from the small-angle region, beyond pi and for large translations *)
 Example C02_nonvacuous : (25 / 1125899906842624 <= 7 * 7) /\ (25 / 1125899906842624 < 3 * 3 + 4 * 4 + 12 * 12).
